@@ -116,7 +116,7 @@ const VAL: &[&str] = &["calc(", "min(", "CALC(", "Clamp(", "1px", " + ", " - ", 
 const WRAP: &[(&str, &str)] = &[("", ""), ("@media (min-width:1rpx){", "}"), ("@MEDIA (min-width:1px){", "}"), ("@layer x{", "}"), ("@supports selector(.c .d){", "}"), ("@container n (min-width: calc(1px + 2rpx)){", "}"), ("@starting-style{", "}"), ("@scope (.c) to (.d){", "}"), ("@STARTING-STYLE{", "}"), ("@document url(x){", "}")];
 /// at-rules whose block holds declarations (or keyframe / margin-box blocks of declarations), never selectors
 const DECL_WRAP: &[(&str, &str)] = &[("@page{width:", "}"), ("@page :first{margin:0 ", "}"), ("@font-face{width:", "}"), ("@keyframes k{from{width:", "}}"), ("@page{@top-left{width:", "}}"), ("@property --x{initial-value:", "}"), ("@counter-style c{pad:", "}")];
-const BOUND: &str = "selectors of <= 4 token-level pieces from 15 (dot, identifiers, combinators, colon, star, :is/:not, brackets, =, hash; plain, under @media and inside x:is(..)), selectors of <= 4 pieces from 14 selector pieces (classes, combinators, :not/:is/::slotted/:nth-child(.. of ..), comments) under 10 wrappers (none, @media, @MEDIA, @layer, @supports selector(), @container with calc, @starting-style, @STARTING-STYLE, @scope, @document), and declaration values of <= 4 pieces from 20 value pieces (calc, min, CALC, Clamp, nested parentheses, var, rpx, comments, `;` also doubled and leading, !important, a hash, a second declaration, signed numbers), and values of <= 2 pieces inside 7 declaration at-rules (@page, @font-face, @keyframes, margin boxes, @property, @counter-style); selectors of <= 2 pieces before and after `:host` rules with :host conversion, prefix and prefix sign on; 7 sheets with dotted cascade-layer names (@layer, @import layer()) x import sign x prefix x prefix sign: the names reach the output unchanged; 6 zero rpx spellings x 5 contexts; the JS binding constructor agrees with from_css for 4 prefixes (none, empty, ASCII, CJK) x :host conversion on/off; only inputs the transformer accepts without a warning; class prefixes `p` and the empty prefix";
+const BOUND: &str = "selectors of <= 4 token-level pieces from 15 (dot, identifiers, combinators, colon, star, :is/:not, brackets, =, hash; plain, under @media and inside x:is(..)), selectors of <= 4 pieces from 14 selector pieces (classes, combinators, :not/:is/::slotted/:nth-child(.. of ..), comments) under 10 wrappers (none, @media, @MEDIA, @layer, @supports selector(), @container with calc, @starting-style, @STARTING-STYLE, @scope, @document), and declaration values of <= 4 pieces from 20 value pieces (calc, min, CALC, Clamp, nested parentheses, var, rpx, comments, `;` also doubled and leading, !important, a hash, a second declaration, signed numbers), and values of <= 2 pieces inside 7 declaration at-rules (@page, @font-face, @keyframes, margin boxes, @property, @counter-style); selectors of <= 2 pieces before and after `:host` rules with :host conversion, prefix and prefix sign on; 9 selectors with escaped names x 6 prefixes (digit-first, dash-digit, `--`, CJK, ASCII, empty); 7 sheets with dotted cascade-layer names (@layer, @import layer()) x import sign x prefix x prefix sign: the names reach the output unchanged; 6 zero rpx spellings x 5 contexts; the JS binding constructor agrees with from_css for 4 prefixes (none, empty, ASCII, CJK) x :host conversion on/off; only inputs the transformer accepts without a warning; class prefixes `p` and the empty prefix";
 
 fn well_nested(css: &str) -> bool {
     let mut st = vec![];
@@ -281,6 +281,16 @@ pub fn search() -> Outcome {
             _ => {}
         }
     }
+    // names that need escaping when written: a prefix that starts with a digit or `-digit`, classes / ids spelled with escapes
+    for sel in [".a", ".a.b>.c", ".\\31 st", "#\\31 a", ".-\\31 x", ".a\\ b", ".\\--x", "x.\\32", ":not(.\\31 a)"] {
+        for prefix in ["2x", "-1", "--", "\u{9875}", "p", ""] {
+            count += 1;
+            let css = format!("{}{{width:1px}}", sel);
+            if let Some((got, want)) = check_with(&css, prefix) {
+                return Outcome { found: true, input: format!("prefix:{}:{}", prefix, css), observed: got, expected: want, evaluations: count, bound: BOUND.into() };
+            }
+        }
+    }
     for css in LAYERS {
         count += 1;
         if let Some((got, want)) = check_layer(css) {
@@ -325,6 +335,13 @@ pub fn search() -> Outcome {
 pub fn run(input: &str) -> Outcome {
     if let Some(css) = input.strip_prefix("binding:") {
         return match check_binding(css) {
+            Some((got, want)) => Outcome { found: true, input: input.into(), observed: got, expected: want, evaluations: 1, bound: "single input".into() },
+            None => Outcome { found: false, input: input.into(), observed: String::new(), expected: String::new(), evaluations: 1, bound: "single input".into() },
+        };
+    }
+    if let Some(rest) = input.strip_prefix("prefix:") {
+        let (prefix, css) = rest.split_once(':').unwrap_or(("p", rest));
+        return match check_with(css, prefix) {
             Some((got, want)) => Outcome { found: true, input: input.into(), observed: got, expected: want, evaluations: 1, bound: "single input".into() },
             None => Outcome { found: false, input: input.into(), observed: String::new(), expected: String::new(), evaluations: 1, bound: "single input".into() },
         };
